@@ -142,8 +142,16 @@ func (mr *msgReader) putFlateReader() {
 	if mr.flateReader != nil {
 		putFlateReader(mr.flateReader)
 		mr.flateReader = nil
+		// The flate reader now belongs to the pool and may be handed to another
+		// connection: further reads of this message must not reach it.
+		mr.limitReader.r = eofReader{}
 	}
 }
+
+// eofReader is what a message's limitReader reads from once its flate reader was released.
+type eofReader struct{}
+
+func (eofReader) Read([]byte) (int, error) { return 0, io.EOF }
 
 func (mr *msgReader) close() {
 	mr.c.readMu.forceLock()
